@@ -62,6 +62,30 @@ func crashEngine(prop string, power bool) *Engine {
 			ops = append(ops, &WOp{Kind: "syncfs"})
 			w.Ops = append(ops, w.Ops[n:]...)
 		}
+		if r.Pct(25) && len(w.Ops) >= 3 {
+			// make sure the WAL is rotated (checkpoint + Truncate(0) + new status
+			// header) in the middle of the history: rotate at every checkpoint, and
+			// one pause just over the 5-minute checkpoint period after an early write,
+			// so that acknowledged writes follow the rotation and precede the next
+			// checkpoint
+			w.Node.BackgroundSync = true
+			w.Node.WALRotateInterval = 1
+			at := -1
+			for i, o := range w.Ops {
+				if o.Kind == "write" && i < len(w.Ops)-1 {
+					at = i
+					if r.Pct(60) {
+						break
+					}
+				}
+			}
+			if at >= 0 {
+				ops := append([]*WOp{}, w.Ops[:at+1]...)
+				ops = append(ops, &WOp{Kind: "sleep", D: 5*time.Minute + time.Duration(1+r.Intn(20000))*time.Millisecond})
+				w.Ops = append(ops, w.Ops[at+1:]...)
+				res.Count("history-with-forced-wal-rotation", 1)
+			}
+		}
 		lifetimes := 1 + r.Intn(3)
 		insertCrashOps(w, r, lifetimes)
 		if r.Pct(20) {
